@@ -109,7 +109,16 @@ pub broadcast axiom fn ax_req_fp_sub(a: Fp, b: Fp) ensures #[trigger] <Fp as vst
 pub assume_specification[<Fp as Field>::invert](a: &Fp) -> (r: CtOption<Fp>)
     ensures
         ct_opt(r).is_some() <==> fv(*a) != 0,
-        ct_opt(r).is_some() ==> f_mul(fv(ct_opt(r).unwrap()), fv(*a)) == 1;
+        ct_opt(r).is_some() ==> fv(ct_opt(r).unwrap()) == finv(fv(*a));
+/// multiplicative inverse mod P (exists for non-zero because P is prime)
+pub uninterp spec fn finv(a: int) -> int;
+pub broadcast axiom fn ax_finv(a: int)
+    requires 0 < a < P()
+    ensures 0 < #[trigger] finv(a) < P(), f_mul(a, finv(a)) == 1;
+/// the element encoder of the real crate (`impl From<Fp> for Vec<u8>` = the 24 bytes of to_repr); discharged for all
+/// elements by the complete Kani harness k_vec_from_fp
+pub assume_specification[<Vec<u8> as From<Fp>>::from](f: Fp) -> (r: Vec<u8>)
+    ensures r@ == repr(f);
 pub broadcast axiom fn ax_req_fp_mul(a: Fp, b: Fp) ensures #[trigger] <Fp as vstd::std_specs::ops::MulSpec<Fp>>::mul_req(a, b);
 pub broadcast axiom fn ax_req_fp_add_ref<'b>(a: Fp, b: &'b Fp) ensures #[trigger] <Fp as vstd::std_specs::ops::AddSpec<&'b Fp>>::add_req(a, b);
 pub broadcast axiom fn ax_req_fp_add(a: Fp, b: Fp) ensures #[trigger] <Fp as vstd::std_specs::ops::AddSpec<Fp>>::add_req(a, b);
